@@ -34,7 +34,8 @@ func TestMain(m *testing.M) {
 			"(b) any command from the family grammars — oracle: if it is answered with an error, the digest is identical before and after; (c) a single-key write — oracle: the digest of every other key is unchanged (no shared structure, e.g. between a ...STORE destination and its sources); (d) a ...STORE command to set up (c). "+
 			"A case is dataset + probes; non-trivial = some probe addressed an existing key holding a collection; distinct = FNV-64 of all commands.",
 		"the virtual clock stands still within a case, so no key expires during a probe",
-		"access-frequency/recency bookkeeping (TOUCH, OBJECTFREQ) is not part of the digest: the property lists values, membership, ordering, types and deadlines")
+		"access-frequency/recency bookkeeping (TOUCH, OBJECTFREQ) is not part of the digest: the property lists values, membership, ordering, types and deadlines",
+		"probe classes added: …STORE followed at once by in-place writes to destination and operand; multi-key commands with exactly one wrong-type operand whose other operands would have had an effect")
 	common.Main(m, rec)
 }
 
